@@ -122,6 +122,7 @@ def watch(cmd, timeout=60.0, poll=0.05, stable_polls=4, env=None, grace=0.3):
         fo.seek(0)
         fe.seek(0)
         res.stdout = fo.read().decode("utf-8", "replace")
-        res.stderr = fe.read().decode("utf-8", "replace")[-4000:]
+        err = fe.read().decode("utf-8", "replace")
+        res.stderr = err if len(err) <= 16000 else err[:10000] + "\n...\n" + err[-6000:]
     res.wall = time.time() - t0
     return res
